@@ -83,7 +83,7 @@ def workflow_text(scn, perm, order, shapes, variant=0):
     return "\n".join(lines) + "\n"
 
 
-def setup_project(sb, scn, variant, backend, extra_conf=None):
+def setup_project(sb, scn, variant, backend, extra_conf=None, cancel_history=False):
     """Concretise the abstract project state in the sandbox.  Returns (perm, inv, trk)."""
     from gwf.core import hash_spec
 
@@ -116,24 +116,32 @@ def setup_project(sb, scn, variant, backend, extra_conf=None):
             for ext in ("stdout", "stderr"):
                 sb.write(".gwf/logs/%s.%s" % (n, ext), "earlier output of %s\n" % n)
     trk = {}
-    squeue, sacct, qstat, bjobs = [("77", "PD"), ("78", "R")], [("77", "PENDING")], [("77", "qw")], [("77", "PEND")]
-    for k, t in enumerate(sorted(T)):
-        st = scn["b"][t]
-        if st == "U":
-            continue
-        jid = str(100 + k)
-        trk[perm[t]] = jid
-        if backend == "slurm":
-            q, a = SLURM[st]
-            if q:
-                squeue.append((jid, q))
-            sacct.append((jid, a))
-        elif backend == "sge":
-            if st in SGE:
-                qstat.append((jid, SGE[st]))
-        elif backend == "lsf":
-            bjobs.append((jid, LSF[st]))
-    sb.render(squeue=squeue, sacct=sacct, qstat=qstat, bjobs=bjobs)
+
+    def tables(as_running=()):
+        squeue, sacct, qstat, bjobs = [("77", "PD"), ("78", "R")], [("77", "PENDING")], [("77", "qw")], [("77", "PEND")]
+        for k, t in enumerate(sorted(T)):
+            st = "R" if t in as_running else scn["b"][t]
+            if st == "U":
+                continue
+            jid = str(100 + k)
+            trk[perm[t]] = jid
+            if backend == "slurm":
+                q, a = SLURM[st]
+                if q:
+                    squeue.append((jid, q))
+                sacct.append((jid, a))
+            elif backend == "sge":
+                if st in SGE:
+                    qstat.append((jid, SGE[st]))
+            elif backend == "lsf":
+                bjobs.append((jid, LSF[st]))
+        sb.render(squeue=squeue, sacct=sacct, qstat=qstat, bjobs=bjobs)
+
+    # For a share of the projects the cancelled jobs were cancelled by the real `gwf cancel` (the jobs are running
+    # when it is called; the simulated scheduler then shows them as cancelled): the state "cancelled" is then the
+    # product of a history, not of a hand-written job table, and must lead to the same decisions.
+    by_cancel = sorted(t for t in T if scn["b"][t] == "K") if cancel_history else []
+    tables(by_cancel)
     if trk:
         sb.write(".gwf/%s-backend-tracked.json" % backend, json.dumps(trk))
     if scn["hash"]:
@@ -144,6 +152,12 @@ def setup_project(sb, scn, variant, backend, extra_conf=None):
             elif scn["hrec"][t] == "changed":
                 rec[perm[t]] = hash_spec("echo an older spec of %s\n" % t)
         sb.write(".gwf/spec-hashes.json", json.dumps(rec))
+    if by_cancel:
+        r = sb.gwf(["cancel"] + [perm[t] for t in by_cancel])
+        if r.exit_code != 0 or r.exc is not None:
+            raise RuntimeError("gwf cancel in the set-up failed: %s %r" % ((r.stderr or "")[-300:], r.exc))
+        tables()
+        sb.new_calls()
     return perm, inv, trk, shapes
 
 
@@ -157,7 +171,8 @@ COMMANDS_COUNTERS = ("sbatch", "qsub", "bsub")
 def drive_cli(item):
     rid, scn, variant, backend = item
     sb = sandbox()
-    perm, inv, trk, shapes = setup_project(sb, scn, variant, backend)
+    by_cancel = variant % 3 == 1
+    perm, inv, trk, shapes = setup_project(sb, scn, variant, backend, cancel_history=by_cancel)
     sub = variant % 17 == 0  # a fresh interpreter for a sample
     from ..sandbox import pattern_for
 
@@ -225,7 +240,7 @@ def drive_cli(item):
     obs["mut_dry"] = mutating(c2)
     obs["err"] = "; ".join(errs)
     s2 = dict(scn)
-    s2.update(trk={inv[n]: j for n, j in trk.items()}, shapes=shapes, variant=variant, level="cli", backend=backend, sub=sub, nomatch=bool(nomatch), prelude=prelude)
+    s2.update(trk={inv[n]: j for n, j in trk.items()}, shapes=shapes, variant=variant, level="cli", backend=backend, sub=sub, nomatch=bool(nomatch), prelude=prelude, cancel_history=by_cancel)
     return {"id": rid, "scn": s2, "obs": obs}
 
 
